@@ -95,6 +95,9 @@ type c11Hooks struct {
 	life map[string]int // "<tag>/<event>" -> count (Init, Inherit, Close of C11Park instances)
 	// park is called by a C11Park filter for a non-twin request.
 	park func(id, role, tag string, gen int, hold int, wait time.Duration)
+	// mqPark is called by a C11Park filter that meets a request which is not an
+	// HTTP request (the MQTT CONNECT of the neighbour MQTTProxy's Connect pipeline).
+	mqPark func()
 }
 
 var c11Cur *c11Hooks
@@ -144,6 +147,9 @@ func c11Atoi(s string) int {
 func (p *c11Park) Handle(ctx *context.Context) string {
 	req, _ := ctx.GetInputRequest().(*httpprot.Request)
 	if req == nil {
+		if hk := c11Cur; hk != nil && hk.mqPark != nil {
+			hk.mqPark()
+		}
 		return ""
 	}
 	h := req.HTTPHeader()
